@@ -69,6 +69,9 @@ def _section(draw, pal, idx, multi):
             body[key] = draw(_shaped(pal, n, ncol))
     if draw(st.booleans()):
         body["text_font"] = draw(st.sampled_from([draw(st.integers(1, 10)), [draw(st.integers(1, 10)) for _ in range(ncol)]]))
+    for side in ("left", "right", "top", "bottom"):
+        if draw(st.integers(0, 9)) < 3:
+            body[f"border_color_{side}"] = draw(_shaped(pal, n, ncol))
     hmode = draw(st.sampled_from(["default", "explicit", "none"]))
     if hmode == "explicit":
         h = {"text": [f"@H{idx}.{c}" for c in range(ncol)]}
@@ -78,6 +81,8 @@ def _section(draw, pal, idx, multi):
             h["text_background_color"] = draw(st.sampled_from(pal))
         if draw(st.booleans()):
             h["text_font"] = draw(st.integers(1, 10))
+        if draw(st.integers(0, 9)) < 4:
+            h["border_color_" + draw(st.sampled_from(["left", "top", "bottom"]))] = draw(st.sampled_from(pal))
         headers = [h]
     else:
         headers = hmode
@@ -119,6 +124,8 @@ def _doc(draw):
                 spec["text_background_color"] = draw(st.sampled_from(pal))
             if draw(st.booleans()):
                 spec["text_font"] = draw(st.integers(1, 10))
+            if kind != "figure" and draw(st.integers(0, 9)) < 4:
+                spec["border_color_" + draw(st.sampled_from(["left", "top", "bottom"]))] = draw(st.sampled_from(pal))
             rec[key] = spec
     if draw(st.integers(0, 9)) < 3:
         rec["page_header"] = draw(_text_comp("@P", pal, 1))
@@ -205,6 +212,14 @@ class Ctx:
         elif self.doc.fonts[f] != want:
             self.res.fail("font", f"{where}/wrong_font", f"requested font {req} = {want!r}, \\f{f} = {self.doc.fonts[f]!r}")
 
+    def borders(self, where, cell, spec, i, j, last):
+        for side, key in (("l", "left"), ("t", "top"), ("b", "bottom"), ("r", "right")):
+            bd = cell.borders.get(side)
+            if bd is None:
+                continue
+            req = attr_at(spec.get(f"border_color_{key}"), i, j)
+            self.color("border", where, req, bd.get("cf"))
+
     def element(self, where, cprops, color, bg, font):
         self.color("text", where, color, cprops.get("cf"))
         self.color("background", where, bg, cprops.get("chcbpat"), cprops.get("cb"))
@@ -266,6 +281,7 @@ def check(case) -> Result:
                     j = names.index(name)
                     cx.element(f"body/{kind}", cell.cprops, attr_at(body.get("text_color"), i, j), attr_at(body.get("text_background_color"), i, j),
                                attr_at(body.get("text_font"), i, j, 1))
+                    cx.borders(f"body/{kind}", cell, body, i, j, name == disp[-1])
             elif it.role == "header":
                 t0 = it.texts[0]
                 if t0.startswith("@H"):
@@ -280,6 +296,7 @@ def check(case) -> Result:
                     for c, cell in enumerate(it.block.cells):
                         cx.element(f"header/{kind}", cell.cprops, attr_at(hd.get("text_color"), 0, c), attr_at(hd.get("text_background_color"), 0, c),
                                    attr_at(hd.get("text_font"), 0, c, 1))
+                        cx.borders(f"header/{kind}", cell, hd, 0, c, c == len(it.block.cells) - 1)
                 else:
                     for cell in it.block.cells:
                         cx.element(f"autoheader/{kind}", cell.cprops, None, None, 1)
@@ -292,6 +309,8 @@ def check(case) -> Result:
                 spec = case.get("footnote" if it.role.startswith("fn") else "source")
                 cont = it.block.cells[0] if isinstance(it.block, Row) else it.block
                 cx.element(f"{it.role}/{kind}", cont.cprops, spec.get("text_color"), spec.get("text_background_color"), spec.get("text_font", 1))
+                if isinstance(it.block, Row):
+                    cx.borders(f"{it.role}/{kind}", cont, spec, 0, 0, True)
     for name, lst in (("page_header", d.headers), ("page_footer", d.footers)):
         spec = case.get(name)
         if spec and lst:
